@@ -307,6 +307,7 @@ def synthesize_isolated(program, n, strategy_name, timeout=120):
             os._exit(0)
     os.close(wfd)
     chunks = []
+    timed_out = False
     import time as _t
     t0 = _t.time()
     with os.fdopen(rfd, "rb") as r:
@@ -319,11 +320,12 @@ def synthesize_isolated(program, n, strategy_name, timeout=120):
                 break
             if _t.time() - t0 > timeout:
                 os.kill(pid, signal.SIGKILL)
+                timed_out = True
                 break
     _, status = os.waitpid(pid, 0)
     data = b"".join(chunks)
     if not data:
-        return ("crash", status, "")
+        return ("crash", "timeout" if timed_out else status, "")
     try:
         return pickle.loads(data)
     except Exception:  # noqa
